@@ -10,7 +10,7 @@
      inflight_does_not_break  durations, deltas and times (-1 included) never decide whether a report is
                               produced, what its status is, or which sections it has with which bodies
      model_passes_size_oracle the Size: oracle accepts the model *)
-From Robsd Require Import Report.DurationSpec Report.ReportProofs Report.DurationProofs Report.ReportNeverHidden.
+From Robsd Require Import Report.DurationSpec Report.ReportProofs Report.DurationProofs Report.ReportNeverHidden Report.PreviousAge.
 From Coq Require Import Sorting.Sorted.
 Local Open Scope Z_scope.
 
@@ -134,43 +134,50 @@ Qed.
 
 (* ---- the composed lines of a report that is produced ---------------------------------------------------------------- *)
 
-Theorem duration_line m cfg rows fs rep :
-  report_struct_rows m cfg rows fs = ROk rep ->
+Theorem duration_line w m cfg rows fs rep :
+  report_struct_rows_with w m cfg rows fs = ROk rep ->
   let '(d, delta) := spec_total m rows in
   in_range d = true -> delta_in_range delta = true ->
   rp_duration rep = spec_duration_text d delta 60.
 Proof.
-  intros H. rewrite (report_duration_line _ _ _ _ _ H). destruct (total_spec m rows) as [_ ->].
+  intros H. rewrite (report_duration_line _ _ _ _ _ _ H). destruct (total_spec m rows) as [_ ->].
   destruct (spec_total m rows) as [d delta]. cbn [fst snd]. intros H1 H2.
   apply duration_text_spec; [lia|exact H1|exact H2].
 Qed.
 
 Theorem step_duration_line m cfg rows fs rep k s :
-  report_struct_rows m cfg rows fs = ROk rep -> nth_error (rp_sections rep) k = Some s ->
+  cvs_guard m fs ->
+  report_struct_rows_with fixed_sw m cfg rows fs = ROk rep -> nth_error (rp_sections rep) k = Some s ->
   exists r, nth_error (filter (spec_shown m cfg fs) rows) k = Some r /\
     s_name s = r_name r /\ s_duration s = step_duration r /\
     (in_range (r_duration r) = true -> delta_in_range (r_delta r) = true ->
        s_duration s = spec_duration_text (r_duration r) (r_delta r) 0).
 Proof.
-  intros H Hk. destruct (sections_exact _ _ _ _ _ H) as [Hs _]. rewrite Hs in Hk.
+  intros Hg H Hk. destruct (sections_exact _ _ _ _ _ Hg H) as [Hs _]. rewrite Hs in Hk.
   apply map_nth_error_inv in Hk. destruct Hk as [r [Hnth <-]]. exists r. split; [exact Hnth|].
   cbn [s_name s_duration section_of]. repeat split. intros H1 H2.
   unfold step_duration. destruct thresholds_are as [_ [-> _]]. apply duration_text_spec; [lia|exact H1|exact H2].
 Qed.
 
-Lemma report_sizes_field m cfg rows fs rep :
-  report_struct_rows m cfg rows fs = ROk rep -> rp_sizes rep = report_sizes m cfg fs.
+Lemma report_sizes_field w m cfg rows fs rep :
+  report_struct_rows_with w m cfg rows fs = ROk rep -> rp_sizes rep = report_sizes m cfg fs.
 Proof.
-  unfold report_struct_rows. destruct (negb (c_running cfg)); [discriminate|].
-  destruct (f_comment fs); try discriminate; destruct (steps_loop m cfg fs rows); try discriminate;
+  unfold report_struct_rows_with, report_struct_rows_gen. destruct (negb (c_running cfg)); [discriminate|].
+  destruct (f_comment fs); try discriminate; destruct (steps_loop_gen w _ m cfg fs rows); try discriminate;
     intros H; injection H as <-; reflexivity.
 Qed.
 
-Theorem sizes_lines m cfg rows fs rep :
-  report_struct_rows m cfg rows fs = ROk rep ->
+(* the Size: lines of a report: against the greatest other name, always; against the previous invocation when
+   name order is creation order *)
+Theorem sizes_lines w m cfg rows fs rep :
+  report_struct_rows_with w m cfg rows fs = ROk rep ->
   (forall cur, f_rel fs = Some cur -> Forall (fun f => 0 <= rf_size f) cur) ->
-  rp_sizes rep = spec_sizes m cfg fs.
-Proof. intros H Hn. rewrite (report_sizes_field _ _ _ _ _ H). now apply report_sizes_spec. Qed.
+  rp_sizes rep = sizes_by_name m cfg fs /\
+  (forall age, name_order_is_age cfg fs age = true -> rp_sizes rep = spec_sizes m cfg fs age).
+Proof.
+  intros H Hn. rewrite (report_sizes_field _ _ _ _ _ _ H). split; [now apply report_sizes_by_name|].
+  intros age Hg. now apply report_sizes_spec.
+Qed.
 
 (* ---- in-flight rows do not break the report ---------------------------------------------------------------------------- *)
 
@@ -207,24 +214,26 @@ Proof.
 Qed.
 
 Theorem inflight_does_not_break m cfg fs rows rows' :
+  cvs_guard m fs ->
   map strip rows = map strip rows' ->
-  (report_struct_rows m cfg rows fs = RErr <-> report_struct_rows m cfg rows' fs = RErr) /\
+  (report_struct_rows_with fixed_sw m cfg rows fs = RErr <-> report_struct_rows_with fixed_sw m cfg rows' fs = RErr) /\
   report_status m rows = report_status m rows' /\
-  (forall rep rep', report_struct_rows m cfg rows fs = ROk rep -> report_struct_rows m cfg rows' fs = ROk rep' ->
+  (forall rep rep', report_struct_rows_with fixed_sw m cfg rows fs = ROk rep ->
+                    report_struct_rows_with fixed_sw m cfg rows' fs = ROk rep' ->
      rp_status rep = rp_status rep' /\
      map (fun s => (s_name s, s_exit s, s_log s, s_body s)) (rp_sections rep) =
      map (fun s => (s_name s, s_exit s, s_log s, s_body s)) (rp_sections rep')).
 Proof.
-  intros E. split; [|split].
-  - rewrite !report_error_iff, <- (spec_error_strip m cfg fs rows), <- (spec_error_strip m cfg fs rows'), E. tauto.
+  intros Hg E. split; [|split].
+  - rewrite !(report_error_iff _ _ _ _ Hg), <- (spec_error_strip m cfg fs rows), <- (spec_error_strip m cfg fs rows'), E. tauto.
   - now rewrite <- (report_status_strip m rows), <- (report_status_strip m rows'), E.
-  - intros rep rep' H H'. destruct (report_fields _ _ _ _ _ H) as [-> _]. destruct (report_fields _ _ _ _ _ H') as [-> _].
+  - intros rep rep' H H'. destruct (report_fields _ _ _ _ _ _ H) as [-> _]. destruct (report_fields _ _ _ _ _ _ H') as [-> _].
     split; [now rewrite <- (report_status_strip m rows), <- (report_status_strip m rows'), E|].
-    destruct (sections_exact _ _ _ _ _ H) as [-> _]. destruct (sections_exact _ _ _ _ _ H') as [-> _].
+    destruct (sections_exact _ _ _ _ _ Hg H) as [-> _]. destruct (sections_exact _ _ _ _ _ Hg H') as [-> _].
     rewrite !map_map. cbn [s_name s_exit s_log s_body section_of].
-    assert (G : forall l, map (fun x => (r_name x, cast_int (r_exit x), r_log x, body_or_nil m cfg fs x))
+    assert (G : forall l, map (fun x => (r_name x, cast_int (r_exit x), r_log x, body_or_nil_with fixed_sw m cfg fs x))
                             (filter (spec_shown m cfg fs) l) =
-                      map (fun x => (r_name x, cast_int (r_exit x), r_log x, body_or_nil m cfg fs x))
+                      map (fun x => (r_name x, cast_int (r_exit x), r_log x, body_or_nil_with fixed_sw m cfg fs x))
                             (filter (spec_shown m cfg fs) (map strip l))).
     { induction l as [|x l IH]; [reflexivity|]. cbn [map filter]. rewrite strip_shown.
       destruct (spec_shown m cfg fs x); [|exact IH]. cbn [map]. rewrite IH. reflexivity. }
@@ -236,12 +245,14 @@ Definition set_inflight (p : srow -> bool) (r : srow) : srow :=
   if p r then mksrow (r_name r) (r_exit r) (-1) (r_delta r) (r_log r) (r_time r) (r_skip r) else r.
 
 Corollary inflight_durations_do_not_break m cfg fs rows p :
-  (report_struct_rows m cfg rows fs = RErr <-> report_struct_rows m cfg (map (set_inflight p) rows) fs = RErr) /\
+  cvs_guard m fs ->
+  (report_struct_rows_with fixed_sw m cfg rows fs = RErr <->
+   report_struct_rows_with fixed_sw m cfg (map (set_inflight p) rows) fs = RErr) /\
   report_status m rows = report_status m (map (set_inflight p) rows).
 Proof.
   assert (E : map strip rows = map strip (map (set_inflight p) rows)).
   { rewrite map_map. apply map_ext. intros r. unfold set_inflight. destruct (p r); reflexivity. }
-  destruct (inflight_does_not_break m cfg fs _ _ E) as [H1 [H2 _]]. split; assumption.
+  intros Hg. destruct (inflight_does_not_break m cfg fs _ _ Hg E) as [H1 [H2 _]]. split; assumption.
 Qed.
 
 (* ---- the Size: oracle accepts the model ------------------------------------------------------------------------------------ *)
@@ -249,32 +260,45 @@ Qed.
 Lemma list_eqb_refl l : list_eqb beq l l = true.
 Proof. induction l as [|x l IH]; [reflexivity|]. cbn. now rewrite beq_refl, IH. Qed.
 
-Theorem model_passes_size_oracle x rows rep :
-  report_struct_rows (x_mode x) (cfg_of x) rows (files_of x) = ROk rep ->
+(* the Size: oracle judges by creation order ([x_age]); it accepts the model where name order is creation order,
+   and what the model prints is always the comparison with the greatest other name *)
+Theorem model_passes_size_oracle w x rows rep :
+  name_order_is_age (cfg_of x) (files_of x) (x_age x) = true ->
+  report_struct_rows_with w (x_mode x) (cfg_of x) rows (files_of x) = ROk rep ->
   spec_ok_sizes x (rp_sizes rep) = true.
 Proof.
-  intros H. rewrite (report_sizes_field _ _ _ _ _ H). unfold spec_ok_sizes, report_sizes.
-  rewrite previous_spec. change (f_rel (files_of x)) with (x_rel x).
+  intros Hg H. rewrite (report_sizes_field _ _ _ _ _ _ H). unfold spec_ok_sizes, report_sizes.
+  rewrite previous_is_by_name, <- (previous_coincide _ _ _ Hg). change (f_rel (files_of x)) with (x_rel x).
   destruct (x_mode x); try reflexivity.
-  destruct (spec_previous (cfg_of x) (files_of x)) as [prev|] eqn:Ep; [|reflexivity].
+  destruct (spec_previous (cfg_of x) (files_of x) (x_age x)) as [prev|] eqn:Ep; [|reflexivity].
   destruct (x_rel x) as [cur|] eqn:Er; [|reflexivity].
   destruct (sizes_in_range cur (f_prev_rel (files_of x) prev)) eqn:Es; [|reflexivity].
-  unfold spec_sizes. rewrite Ep. change (f_rel (files_of x)) with (x_rel x). rewrite Er.
+  unfold spec_sizes, sizes_against. rewrite Ep. change (f_rel (files_of x)) with (x_rel x). rewrite Er.
   rewrite size_lines_spec; [apply list_eqb_refl|].
   unfold sizes_in_range in Es. rewrite forallb_forall in Es. apply Forall_forall. intros f Hf.
   specialize (Es f Hf). apply andb_true_iff in Es. destruct Es as [Es _]. apply andb_true_iff in Es.
   destruct Es as [Es _]. now apply Z.leb_le.
 Qed.
 
+Theorem model_sizes_are_by_name w x rows rep :
+  (forall cur, x_rel x = Some cur -> Forall (fun f => 0 <= rf_size f) cur) ->
+  report_struct_rows_with w (x_mode x) (cfg_of x) rows (files_of x) = ROk rep ->
+  sizes_as_by_name x (rp_sizes rep) = true.
+Proof.
+  intros Hn H. unfold sizes_as_by_name. rewrite (report_sizes_field _ _ _ _ _ _ H).
+  rewrite (report_sizes_by_name (x_mode x) (cfg_of x) (files_of x) Hn). apply list_eqb_refl.
+Qed.
+
 Theorem model_passes_all_duration_oracles x rows rep :
+  cvs_guard (x_mode x) (files_of x) ->
   rows_of x = Some rows ->
-  report_struct_rows (x_mode x) (cfg_of x) rows (files_of x) = ROk rep ->
+  report_struct_rows_with fixed_sw (x_mode x) (cfg_of x) rows (files_of x) = ROk rep ->
   spec_ok_total x (rp_duration rep) = true /\
   (forall k s, nth_error (rp_sections rep) k = Some s -> spec_ok_step_duration x k (s_duration s) = true) /\
-  spec_ok_sizes x (rp_sizes rep) = true /\
+  (name_order_is_age (cfg_of x) (files_of x) (x_age x) = true -> spec_ok_sizes x (rp_sizes rep) = true) /\
   spec_ok_shell x (render_Z (sh_total (x_mode x) rows)) = true.
 Proof.
-  intros E H. destruct (model_passes_duration_oracles x rows rep E H) as [H1 [H2 H3]].
-  split; [exact H1|]. split; [|split; [exact (model_passes_size_oracle x rows rep H)|exact H3]].
-  intros k s Hk. destruct (step_duration_line _ _ _ _ _ k s H Hk) as [r [Hr [_ [-> _]]]]. now apply H2.
+  intros Hg E H. destruct (model_passes_duration_oracles _ x rows rep E H) as [H1 [H2 H3]].
+  split; [exact H1|]. split; [|split; [intros Ha; exact (model_passes_size_oracle _ x rows rep Ha H)|exact H3]].
+  intros k s Hk. destruct (step_duration_line _ _ _ _ _ k s Hg H Hk) as [r [Hr [_ [-> _]]]]. now apply H2.
 Qed.
